@@ -21,7 +21,8 @@ EXPLANATION = (
     "only through bool(); (d) the isolation rests on copy.deepcopy copying everything a value holds: every __deepcopy__ "
     "defined anywhere in lena (expected: none) must hand the object's content to the copy only through copy.deepcopy, and "
     "no class defines __copy__-style shortcuts under the name __deepcopy__ (`__deepcopy__ = __copy__`).  Does not decide that a branch computes what it would compute alone (values) nor "
-    "aliasing introduced by user elements.")
+    "aliasing introduced by user elements."    " Added after the eighth round of seeded changes and the second round of behaviour-preserving changes: (e) KEEP AND YIELD, tree-wide: a generator run() that both yields a value of its flow (as it is or through copy.copy/tuple/list) and keeps it in the element (self.<x>.update/append/fill(val)) on one way through its loop separates the two by copy.deepcopy."
+)
 RULES = {
     "C04-a": "FRESH: every context-kind value yielded by an accumulator's compute/request is a per-yield deep copy",
     "C04-b": "FRESH: Split._fill / Split.run / Zip._fill hand a per-branch deep copy to every branch but (at most) the last",
